@@ -2,7 +2,11 @@
 
 // C16 driver (2): commit side on the in-repo mock store (which has no Flush command).
 //   mode "txn":   a whole pipelined KVTxn (real flush callback, real Commit / Rollback / resolveFlushedLocks); the client
-//                 shim below answers a Flush RPC by running the same mutations as a Prewrite on the mock store.
+//                 shim below answers a Flush RPC by running the same mutations as a Prewrite on the mock store and then
+//                 applies TiKV's generation rule (a flush whose generation is not newer than the lock's is ignored,
+//                 otherwise the lock's op/value are replaced); BufferBatchGet is answered from the flushed locks.
+//                 Region splits can be injected between ops (["split",key]) and right before the i-th Flush RPC is
+//                 delivered (rpc_splits), so that batches are regrouped after EpochNotMatch.
 //   mode "probe": locks prewritten by direct Prewrite RPCs, then CommitterProbe.ResolveFlushedLocks(start, end, commit)
 //                 with the bounds computed as the flush callback computes them (smallest / largest key).
 // After the end of a case the driver waits until the store's background pool has resolved (or the settle time is over)
@@ -26,7 +30,9 @@ import (
 	"github.com/pingcap/log"
 	"go.uber.org/zap"
 	"github.com/tikv/client-go/v2/config/retry"
+	tikverr "github.com/tikv/client-go/v2/error"
 	"github.com/tikv/client-go/v2/internal/mockstore/mocktikv"
+	"github.com/tikv/client-go/v2/kv"
 	"github.com/tikv/client-go/v2/tikv"
 	"github.com/tikv/client-go/v2/tikvrpc"
 	"github.com/tikv/client-go/v2/txnkv/transaction"
@@ -41,6 +47,14 @@ type testCase struct {
 	Ops      [][]interface{} `json:"ops"`
 	End      string          `json:"end"`
 	SettleMs int             `json:"settle_ms"`
+	// [[i, key]]: split at key right before the i-th (1-based) Flush RPC of the case reaches the store
+	RPCSplits [][]interface{} `json:"rpc_splits"`
+}
+
+type lockRec struct {
+	gen   uint64
+	op    kvrpcpb.Op
+	value []byte
 }
 
 type flushRec struct {
@@ -52,8 +66,27 @@ type shim struct {
 	tikv.Client
 	mu       sync.Mutex
 	flushes  []flushRec
-	resolves []string // start key (hex) of the region a ResolveLock was sent to, "" for the first region
+	resolves []string // start key (hex) of the region a ResolveLock was served by, "" for the first region
 	cluster  *mocktikv.Cluster
+	mvcc     *mocktikv.MVCCLevelDB
+	shadow   map[string]lockRec // flushed locks of the transaction under test: generation, op, value
+	nFlush   int
+	rpcSplit map[int][]byte
+	bounds   map[string]bool // current split keys (raw)
+}
+
+// splitAt splits the region containing key at key (no-op if key is already a region start)
+func (s *shim) splitAt(key []byte) {
+	if s.bounds[string(key)] {
+		return
+	}
+	s.bounds[string(key)] = true
+	r, _, _, _ := s.cluster.GetRegionByKey(mocktikv.NewMvccKey(key))
+	if r == nil {
+		panic("split: no region for key " + hex.EncodeToString(key))
+	}
+	nid, pid := s.cluster.AllocID(), s.cluster.AllocID()
+	s.cluster.Split(r.Id, nid, key, []uint64{pid}, pid)
 }
 
 func (s *shim) SendRequest(ctx context.Context, addr string, req *tikvrpc.Request, timeout time.Duration) (*tikvrpc.Response, error) {
@@ -66,6 +99,10 @@ func (s *shim) SendRequest(ctx context.Context, addr string, req *tikvrpc.Reques
 		}
 		s.mu.Lock()
 		s.flushes = append(s.flushes, rec)
+		s.nFlush++
+		if k, ok := s.rpcSplit[s.nFlush]; ok {
+			s.splitAt(k)
+		}
 		s.mu.Unlock()
 		nr := *req
 		nr.Type = tikvrpc.CmdPrewrite
@@ -76,9 +113,50 @@ func (s *shim) SendRequest(ctx context.Context, addr string, req *tikvrpc.Reques
 			return resp, err
 		}
 		pr := resp.Resp.(*kvrpcpb.PrewriteResponse)
+		if pr.RegionError == nil && len(pr.Errors) == 0 {
+			// TiKV: a flush that is not newer than the existing lock is stale and ignored; a newer one replaces the lock
+			s.mu.Lock()
+			for _, m := range fr.Mutations {
+				if old, ok := s.shadow[string(m.Key)]; ok && old.gen >= fr.Generation {
+					continue
+				}
+				s.shadow[string(m.Key)] = lockRec{gen: fr.Generation, op: m.Op, value: m.Value}
+				if _, err := s.mvcc.VerifPipelinedOverwriteLock(m.Key, fr.StartTs, m.Op, m.Value); err != nil {
+					s.mu.Unlock()
+					return nil, err
+				}
+			}
+			s.mu.Unlock()
+		}
 		return &tikvrpc.Response{Resp: &kvrpcpb.FlushResponse{RegionError: pr.RegionError, Errors: pr.Errors}}, nil
+	case tikvrpc.CmdBufferBatchGet:
+		br := req.BufferBatchGet()
+		// region / epoch check by the mock store itself (an empty BatchGet in the same context)
+		nr := *req
+		nr.Type = tikvrpc.CmdBatchGet
+		nr.Req = &kvrpcpb.BatchGetRequest{Version: br.Version, Context: br.Context}
+		resp, err := s.Client.SendRequest(ctx, addr, &nr, timeout)
+		if err != nil {
+			return resp, err
+		}
+		out := &kvrpcpb.BufferBatchGetResponse{RegionError: resp.Resp.(*kvrpcpb.BatchGetResponse).RegionError}
+		if out.RegionError == nil {
+			s.mu.Lock()
+			for _, k := range br.Keys {
+				if l, ok := s.shadow[string(k)]; ok {
+					v := l.value
+					if l.op == kvrpcpb.Op_Del {
+						v = nil
+					}
+					out.Pairs = append(out.Pairs, &kvrpcpb.KvPair{Key: k, Value: v})
+				}
+			}
+			s.mu.Unlock()
+		}
+		return &tikvrpc.Response{Resp: out}, nil
 	case tikvrpc.CmdResolveLock:
-		if req.Context.GetRegionId() != 0 {
+		resp, err := s.Client.SendRequest(ctx, addr, req, timeout)
+		if err == nil && resp.Resp.(*kvrpcpb.ResolveLockResponse).RegionError == nil && req.Context.GetRegionId() != 0 {
 			for _, r := range s.cluster.GetAllRegions() {
 				if r.Meta.Id == req.Context.GetRegionId() {
 					s.mu.Lock()
@@ -87,6 +165,7 @@ func (s *shim) SendRequest(ctx context.Context, addr string, req *tikvrpc.Reques
 				}
 			}
 		}
+		return resp, err
 	case tikvrpc.CmdBroadcastTxnStatus:
 		return &tikvrpc.Response{Resp: &kvrpcpb.BroadcastTxnStatusResponse{}}, nil
 	}
@@ -120,7 +199,8 @@ type result struct {
 	ID        string            `json:"id"`
 	StartTS   uint64            `json:"start_ts"`
 	CommitTS  uint64            `json:"commit_ts"`
-	OpErrs    []string          `json:"op_errs"`
+	Results   []map[string]any  `json:"results"`
+	Regions   []string          `json:"regions"`
 	EndErr    string            `json:"end_err"`
 	PStart    string            `json:"pstart"`
 	PEnd      string            `json:"pend"`
@@ -133,21 +213,28 @@ type result struct {
 }
 
 func runCase(tc testCase) (res result) {
-	res = result{ID: tc.ID, Final: map[string]string{}, OpErrs: []string{}, LocksLeft: []string{}, Flushes: []flushRec{}, Resolves: []string{}}
+	res = result{ID: tc.ID, Final: map[string]string{}, Results: []map[string]any{}, Regions: []string{}, LocksLeft: []string{}, Flushes: []flushRec{}, Resolves: []string{}}
 	defer func() {
 		if x := recover(); x != nil {
 			res.Panic = fmt.Sprint(x)
 		}
 	}()
 	ctx := context.Background()
-	mvcc := mocktikv.MustNewMVCCStore()
+	mvcc := mocktikv.MustNewMVCCStore().(*mocktikv.MVCCLevelDB)
 	cluster := mocktikv.NewCluster(mvcc)
 	splits := [][]byte{}
 	for _, s := range tc.Splits {
 		splits = append(splits, unhex(s))
 	}
 	mocktikv.BootstrapWithMultiRegions(cluster, splits...)
-	sh := &shim{Client: mocktikv.NewRPCClient(cluster, mvcc, nil), cluster: cluster}
+	sh := &shim{Client: mocktikv.NewRPCClient(cluster, mvcc, nil), cluster: cluster, mvcc: mvcc, shadow: map[string]lockRec{},
+		rpcSplit: map[int][]byte{}, bounds: map[string]bool{}}
+	for _, k := range splits {
+		sh.bounds[string(k)] = true
+	}
+	for _, e := range tc.RPCSplits {
+		sh.rpcSplit[int(e[0].(float64))] = unhex(e[1].(string))
+	}
 	store, err := tikv.NewTestTiKVStore(sh, mocktikv.NewPDClient(cluster), nil, nil, 0)
 	if err != nil {
 		panic(err)
@@ -228,25 +315,52 @@ func runCase(tc testCase) (res result) {
 	} else {
 		for _, op := range tc.Ops {
 			var err error
-			switch op[0].(string) {
+			name := op[0].(string)
+			r := map[string]any{"op": name}
+			switch name {
 			case "set":
 				touched[op[1].(string)] = true
 				err = txn.Set(unhex(op[1].(string)), unhex(op[2].(string)))
 			case "del":
 				touched[op[1].(string)] = true
 				err = txn.Delete(unhex(op[1].(string)))
+			case "get":
+				var e kv.ValueEntry
+				e, err = txn.Get(ctx, unhex(op[1].(string)))
+				if err == nil {
+					r["v"] = hex.EncodeToString(e.Value)
+				} else if tikverr.IsErrNotFound(err) {
+					r["v"], err = nil, nil
+				}
+			case "bget":
+				keys := [][]byte{}
+				for _, k := range op[1].([]interface{}) {
+					keys = append(keys, unhex(k.(string)))
+				}
+				var m map[string]kv.ValueEntry
+				m, err = txn.BatchGet(ctx, keys)
+				hm := map[string]string{}
+				for k, e := range m {
+					hm[hex.EncodeToString([]byte(k))] = hex.EncodeToString(e.Value)
+				}
+				r["m"] = hm
 			case "flush":
 				if _, err = txn.GetMemBuffer().Flush(true); err == nil {
 					err = txn.GetMemBuffer().FlushWait()
 				}
 			case "flushnw":
 				_, err = txn.GetMemBuffer().Flush(true)
+			case "split":
+				sh.mu.Lock()
+				sh.splitAt(unhex(op[1].(string)))
+				sh.mu.Unlock()
 			}
 			if err != nil {
-				res.OpErrs = append(res.OpErrs, err.Error())
+				r["err"] = err.Error()
 			} else {
-				res.OpErrs = append(res.OpErrs, "")
+				r["err"] = nil
 			}
+			res.Results = append(res.Results, r)
 		}
 		if tc.End == "commit" {
 			err = txn.Commit(ctx)
@@ -295,6 +409,10 @@ func runCase(tc testCase) (res result) {
 	sh.mu.Lock()
 	res.Flushes = append(res.Flushes, sh.flushes...)
 	res.Resolves = append(res.Resolves, sh.resolves...)
+	for k := range sh.bounds {
+		res.Regions = append(res.Regions, hex.EncodeToString([]byte(k)))
+	}
+	sort.Strings(res.Regions)
 	sh.mu.Unlock()
 	for k := range touched {
 		v, err := mvcc.Get(unhex(k), math.MaxUint64-1, kvrpcpb.IsolationLevel_SI, nil)
